@@ -966,7 +966,9 @@ func vLemmaKeyOperations(owner *Collection, key string, at uint32, present bool,
 	switch sel {
 	case 0:
 		err = txn.InsertKey(key, fn)
-		vAssert("insertkey-new-writes-the-key-of-the-new-row", present || keyWritten())
+		// (a failed insert's row is removed with the commit: whether its key was queued does not matter, ★D26 repaired)
+		vAssert("insertkey-new-writes-the-key-of-the-new-row", present || err != nil || keyWritten())
+		vAssert("insertkey-new-writes-no-other-key", present || vPutStrings == 0 || keyWritten())
 		vAssert("insertkey-existing-writes-nothing", !present || vPutStrings == 0)
 		vAssert("insertkey-fails-iff-exists", (err != nil) == present || (!present && vDidInsert == 1))
 		vAssert("insertkey-existing-no-insert", !present || (err != nil && vDidInsert == 0))
@@ -975,7 +977,8 @@ func vLemmaKeyOperations(owner *Collection, key string, at uint32, present bool,
 		err = txn.UpsertKey(key, fn)
 		vAssert("upsert-existing-visits-row", !present || (vDidQueryAt == 1 && vLastQueryAt == at && vDidInsert == 0))
 		vAssert("upsert-new-inserts-once", present || (vDidInsert == 1 && vDidQueryAt == 0))
-		vAssert("upsert-new-writes-the-key-of-the-new-row", present || keyWritten())
+		vAssert("upsert-new-writes-the-key-of-the-new-row", present || err != nil || keyWritten())
+		vAssert("upsert-new-writes-no-other-key", present || vPutStrings == 0 || keyWritten())
 		vAssert("upsert-existing-writes-no-key", !present || vPutStrings == 0)
 	case 2:
 		err = txn.QueryKey(key, fn)
